@@ -5,6 +5,7 @@ CONSTANTS
   Segs <- SegsQuick
   Depth = 2
   Mode = "pinned"
+  StopAtOOR = FALSE
   CowAlphabet = {}
   CowMaxLen = 0
 INVARIANTS ApplyMeetsPost NoEmptyChunk LenIsSum
